@@ -3,7 +3,7 @@
     list is the filled slots in index order; END is absorbing. *)
 From MB Require Import Model.Framework Model.Validate.
 From Coq Require Import Sorting.Sorted.
-From MB Require Import Proofs.Tactics Proofs.ListFacts Proofs.FloatFacts Proofs.FrameworkStructure.
+From MB Require Import Proofs.Tactics Proofs.ListFacts Proofs.FloatFacts Proofs.FrameworkStructure Proofs.FrameworkInv.
 Open Scope N_scope.
 
 Definition SlotInv (c : cfg) (s : fstate) : Prop :=
@@ -249,4 +249,28 @@ Proof.
   induction l as [|x l IH]; intros H; [constructor|].
   inversion H; subst. constructor; [|apply IH; assumption].
   intros Hin. match goal with HF : Forall _ l |- _ => rewrite Forall_forall in HF; specialize (HF x Hin) end. lia.
+Qed.
+
+(** the number of returned actions never exceeds the number of machines *)
+Lemma slots_length_call : forall c tp s evs t s' acts,
+  trigger_events c tp s evs t = Ok (s', acts) -> length (slots s') = length (slots s).
+Proof.
+  intros c tp s evs t s' acts H.
+  destruct (trigger_events_G c tp (fun a b => length (slots b) = length (slots a)))
+    with (s := s) (evs := evs) (t := t) (s' := s') (acts := acts) as [HG _];
+    try exact H; intros; try reflexivity; try congruence.
+  - eapply (transition_R c tp (fun _ a b => length (slots b) = length (slots a))); eauto;
+      intros; try reflexivity; try congruence. cbn. apply upd_length.
+  - eapply (decrement_limit_R c tp (fun _ a b => length (slots b) = length (slots a))); eauto;
+      intros; try reflexivity; try congruence. cbn. apply upd_length.
+  - rewrite HG. cbn. apply map_length.
+Qed.
+
+Theorem acts_length_le : forall c tp s evs t s' acts,
+  Inv c s -> trigger_events c tp s evs t = Ok (s', acts) ->
+  (length acts <= length (machines c))%nat.
+Proof.
+  intros c tp s evs t s' acts HI H.
+  destruct (output_contract c tp s evs t s' acts H) as (H1 & _).
+  rewrite (slots_length_call _ _ _ _ _ _ _ H), (inv_slots _ _ HI) in H1. exact H1.
 Qed.
